@@ -629,6 +629,58 @@ func readonlyNonCanonical(r *Rng) {
 	} {
 		recs = append(recs, &dns.OPT{Hdr: dns.RR_Header{Name: ".", Rrtype: dns.TypeOPT, Class: 1232}, Option: opts})
 	}
+	// every option and parameter type with EVERY field set to something other than its zero value (also fields
+	// that never reach the wire, deprecated ones included): a read-only operation has no business writing any
+	{
+		var fill func(v reflect.Value)
+		fill = func(v reflect.Value) {
+			switch v.Kind() {
+			case reflect.Ptr:
+				if !v.IsNil() {
+					fill(v.Elem())
+				}
+			case reflect.Struct:
+				for i := 0; i < v.NumField(); i++ {
+					if v.Field(i).CanSet() {
+						fill(v.Field(i))
+					}
+				}
+			case reflect.Bool:
+				v.SetBool(true)
+			case reflect.Uint8, reflect.Uint16, reflect.Uint32, reflect.Uint64, reflect.Uint:
+				v.SetUint(2)
+			case reflect.Int, reflect.Int32, reflect.Int64:
+				v.SetInt(2)
+			case reflect.String:
+				v.SetString("abcd")
+			case reflect.Slice:
+				n := reflect.MakeSlice(v.Type(), 2, 4)
+				for i := 0; i < 2; i++ {
+					e := n.Index(i)
+					if e.Kind() == reflect.Slice && e.Type().Elem().Kind() == reflect.Uint8 {
+						e.Set(reflect.ValueOf([]byte{192, 0, 2, byte(i + 1)}).Convert(e.Type()))
+					} else {
+						fill(e)
+					}
+				}
+				v.Set(n)
+			}
+		}
+		optTypes := []dns.EDNS0{&dns.EDNS0_TCP_KEEPALIVE{}, &dns.EDNS0_LLQ{}, &dns.EDNS0_UL{}, &dns.EDNS0_EXPIRE{}, &dns.EDNS0_SUBNET{}, &dns.EDNS0_COOKIE{},
+			&dns.EDNS0_NSID{}, &dns.EDNS0_DAU{}, &dns.EDNS0_DHU{}, &dns.EDNS0_N3U{}, &dns.EDNS0_LOCAL{}, &dns.EDNS0_PADDING{}, &dns.EDNS0_EDE{},
+			&dns.EDNS0_ESU{}, &dns.EDNS0_REPORTING{}, &dns.EDNS0_ZONEVERSION{}}
+		for _, o := range optTypes {
+			fill(reflect.ValueOf(o))
+			recs = append(recs, &dns.OPT{Hdr: dns.RR_Header{Name: ".", Rrtype: dns.TypeOPT, Class: 1232, Rdlength: 7}, Option: []dns.EDNS0{o}}) // (the extended-RCODE octet of the TTL is bookkeeping Pack may rewrite)
+		}
+		kvTypes := []dns.SVCBKeyValue{&dns.SVCBMandatory{}, &dns.SVCBAlpn{}, &dns.SVCBNoDefaultAlpn{}, &dns.SVCBPort{}, &dns.SVCBIPv4Hint{}, &dns.SVCBECHConfig{},
+			&dns.SVCBIPv6Hint{}, &dns.SVCBDoHPath{}, &dns.SVCBOhttp{}, &dns.SVCBLocal{}}
+		for _, kv := range kvTypes {
+			fill(reflect.ValueOf(kv))
+			recs = append(recs, &dns.SVCB{Hdr: hdr(dns.TypeSVCB), Priority: 1, Target: "svc.example.", Value: []dns.SVCBKeyValue{kv}})
+		}
+		st["all_fields_nonzero_values"] = len(optTypes) + len(kvTypes)
+	}
 	mkParams := func() []dns.SVCBKeyValue {
 		return []dns.SVCBKeyValue{
 			&dns.SVCBPort{Port: 8443}, &dns.SVCBAlpn{Alpn: append(make([]string, 0, 4), "h2", "h3")},
